@@ -683,7 +683,7 @@ func (in *Interp) evalDesc(e vread.Expr, sc scope) *Desc {
 	}
 	d := in.resolve(g.Name, sc)
 	if d == nil {
-		panic(unknownErr{"struct descriptor " + g.Name})
+		stuck("identifier %s is neither defined earlier in the file nor part of the GooseLang library known to the model", g.Name)
 	}
 	if d.S.DefKind != "struct" {
 		stuck("%s is not a struct descriptor", g.Name)
